@@ -43,6 +43,7 @@ def run(ctx, R):
     R.rule("r1", "the public checker runs all three sibling checkers")
     R.rule("r2", "each sibling: outcome assertion per yielded item, nothing-lost assertion, order assertion")
     R.rule("r3", "probe contexts: no active vertex, distinct order tag")
+    skipped_items(ctx, R)
     top = C.fn(MOD + "check_adapter_invariants")
     if top is None:
         R.fail("r1", "anchor", "-", "check_adapter_invariants not found")
@@ -176,3 +177,109 @@ def run(ctx, R):
     reads = [x for x in walk(gv["body"]) if x.get("k") == "field" and x["name"] == "values"]
     R.check(bool(reads) and any(c.get("name") == "last" for c in calls_in(gv["body"])), "r3", "order-tag-read-back", C.loc(gv["sp"]),
             "get_context_order_values must read the tag pushed by make_contexts")
+
+
+# ---- r4: what the checkers skip ---------------------------------------------------------------------------------------
+# (function, kind) -> reason; anything else inside a checker loop that skips an item is a violation
+SKIP_AUDIT = {}
+
+
+def skipped_items(ctx, R):
+    """The property quantifies over every type / field of every schema, so every `continue` (or early return) inside the
+    loops of the three checkers is a place where a contract violation goes unnoticed. They are inventoried; the one that
+    exists today (edges with a parameter that has no default) is a recorded finding. The mapping that decides `has no
+    default` is evaluated: only a *missing* default may skip the edge - a declared or implicit `null` default is a value."""
+    from tfv import absint as A
+    from tfv import stdmodel as M
+    C = ctx.core
+    H = "trustfall_core::interpreter::helpers::correctness::"
+    R.rule("r4", "no field is skipped by the checkers (audited / listed skips only); a null default is a default")
+    nsk = 0
+    for name in ("check_properties_are_implemented", "check_edges_are_implemented", "check_type_coercions_are_implemented"):
+        f = C.fn(H + name)
+        if f is None:
+            R.fail("r4", "anchor:%s" % name, "-", "%s not found" % name)
+            continue
+        for n, anc in walk_with_ctx(f["body"]):
+            if n.get("k") not in ("continue", "break", "ret"):
+                continue
+            mac = C.S(n.get("mac")) if n.get("mac") is not None else ""
+            if "desugar:" in (mac or "") or not any(a.get("k") == "loop" for a in anc):
+                continue
+            inner = next((a.get("k") for a in reversed(anc) if a.get("k") in ("loop", "closure")), None)
+            if inner == "closure":
+                continue
+            nsk += 1
+            cond = next((a for a in reversed(anc) if a.get("k") == "if"), None)
+            what = ekey(cond["cond"])[:80] if cond is not None else "unconditional"
+            key = "skip/%s/%s" % (name, n["k"])
+            if (name, n["k"]) in SKIP_AUDIT:
+                R.ok("r4", key, {"reason": SKIP_AUDIT[(name, n["k"])]})
+            else:
+                R.fail("r4", key, C.loc(n["sp"]),
+                       "%s skips items with `%s` when `%s`: a contract violation on a skipped type / field is not detected, although the "
+                       "checker is documented to catch it for any schema" % (name, n["k"], what))
+    R.units["checker_skips"] = nsk
+
+    # the mapping of serialized defaults: None only for a missing default
+    f = C.fn(H + "check_edges_are_implemented")
+    if f is None:
+        return
+    lets = [n for n in walk(f["body"]) if n.get("k") == "let" and "init" in n and
+            any((c.get("callee") or "").endswith("serde_json::from_str") or (c.get("callee") or "").endswith("de::from_str") for c in calls_in(n["init"]))]
+    lets = [l for l in lets if not any(o is not l and any(x is l for x in walk(o["init"])) for o in lets)]      # outermost only
+    if len(lets) != 1:
+        R.fail("r4", "anchor:defaults", C.loc(f["sp"]), "expected one binding that decodes the serialized parameter defaults (found %d)" % len(lets))
+        return
+    init = lets[0]["init"]
+    free = {}
+    bound = set()
+    for n in walk(init):
+        if n.get("k") == "closure":
+            for p in n["params"]:
+                bound |= {b for b, _ in pat_binds(p)}
+        if n.get("k") == "let":
+            bound |= {b for b, _ in pat_binds(n["pat"])}
+    for n in walk(init):
+        if n.get("k") == "local" and n["bid"] not in bound:
+            free[n["bid"]] = n["name"]
+    if len(free) != 1:
+        R.fail("r4", "anchor:defaults-input", C.loc(lets[0]["sp"]), "the decoding expression reads %s; expected only the query output row" % sorted(free.values()))
+        return
+    TV = "trustfall_core::ir::value::TransparentValue"
+    FVp = "trustfall_core::ir::value::FieldValue"
+    I = M.intrinsics()
+
+    def from_str(ip, n, a):
+        text = A.deref(a[0])
+        ty = ip.C.S(n.get("ty")) or ""
+        inner = ty[len("core::result::Result<"):].rsplit(",", 1)[0].strip() if ty.startswith("core::result::Result<") else ty
+        val = A.Enum(TV, "Null") if text == "null" else A.Enum(TV, "Int64", [A.Sym("json:" + str(text))])
+        if inner.startswith("core::option::Option<"):
+            return M.ok(M.none() if text == "null" else M.some(val))
+        return M.ok(val)
+    I["serde_json::from_str"] = from_str
+    I["serde_json::de::from_str"] = from_str
+
+    def conv(ip, n, a):
+        v = A.deref(a[0])
+        if isinstance(v, A.Enum) and v.adt == TV:
+            return A.Enum(FVp, v.variant, list(v.fields))
+        return v
+    I["core::convert::From::from"] = conv
+    I["core::convert::Into::into"] = conv
+    row = A.Struct("Output", {"parameter_default": A.VecV([M.none(), M.some("null"), M.some("5")])})
+    try:
+        ip = A.Interp(C, I)
+        res = A.deref(ip.ev(init, {list(free)[0]: A.Cell(row)}))
+        items = [A.deref(x) for x in res.items]
+        got = ["none" if x.variant == "None" else ("null" if A.deref(x.fields[0]).variant == "Null" else "value") for x in items]
+    except (A.Unsupported, AttributeError) as e:
+        R.fail("r4", "unanalysable/defaults", C.loc(lets[0]["sp"]), "abstract evaluation of the default decoding failed: %s (fail closed)" % e)
+        return
+    except A.PanicReached as e:
+        R.fail("r4", "panic/defaults", C.loc(lets[0]["sp"]), "decoding a parameter default panics: %s" % e.what)
+        return
+    R.check(got == ["none", "null", "value"], "r4", "null-default-is-a-default", C.loc(lets[0]["sp"]),
+            "parameter defaults [missing, null, 5] are decoded as %s: a parameter whose default is null (every nullable parameter) counts as "
+            "`no default`, so the checker silently skips every edge that has one" % got)
